@@ -20,7 +20,7 @@ import (
 type Case struct {
 	N      int      `json:"n"`      // statements in the file
 	K      int      `json:"k"`      // statements applied before the failure
-	Layout int      `json:"layout"` // 0: only file, 1: middle of three files
+	Layout int      `json:"layout"` // 0: only file, 1: middle of three files, 2: a checkpoint file between two files
 	Mode   int      `json:"mode"`   // how the partial progress arose: 0 statement k+1 failed; 1 process died before statement k+1; 2 statement 1 failed, re-run, died before statement k+1
 	Edit   string   `json:"edit"`
 	New    []string `json:"new"` // statement list after the edit
@@ -96,6 +96,11 @@ func files(c Case, target []string, style int) map[string]string {
 	case 1:
 		m["1_a.sql"] = "A_1;\nA_2;\n"
 		m["2_t.sql"] = render(target, style)
+		m["3_z.sql"] = "Z_1;\n"
+	case 2:
+		// the file is a checkpoint: a first run starts with it (1_a.sql is never executed) and a newer file follows.
+		m["1_a.sql"] = "A_1;\nA_2;\n"
+		m["2_t.sql"] = "-- atlas:checkpoint\n\n" + render(target, style)
 		m["3_z.sql"] = "Z_1;\n"
 	}
 	return m
@@ -230,7 +235,7 @@ func eval(c Case) (problems []string, key string) {
 			after.Error != before.Error || after.ErrorStmt != before.ErrorStmt || after.Hash != before.Hash || after.Type != before.Type {
 			bad("history not left untouched: before %s after %s", mighelp.RevString(before), mighelp.RevString(after))
 		}
-		if c.Layout == 1 {
+		if c.Layout >= 1 {
 			if _, ok := store.Revs["3"]; ok {
 				bad("a later file was started although the run was refused")
 			}
@@ -239,7 +244,7 @@ func eval(c Case) (problems []string, key string) {
 	}
 	// only the tail changed: resume with the new tail.
 	want := append([]string(nil), c.New[c.K:]...)
-	if c.Layout == 1 {
+	if c.Layout >= 1 {
 		want = append(want, "Z_1")
 	}
 	if rerr != nil {
@@ -311,7 +316,7 @@ func cases(tier string) []Case {
 	var cs []Case
 	for n := 2; n <= maxN; n++ {
 		for k := 0; k < n; k++ {
-			for layout := 0; layout <= 1; layout++ {
+			for layout := 0; layout <= 2; layout++ {
 				for mode := 0; mode <= 2; mode++ {
 					gen := 0
 					first := singleEdits(old(n), &gen)
@@ -335,7 +340,7 @@ func cases(tier string) []Case {
 }
 
 func Run(r *report.Run) {
-	r.Rule = "files of n<=5 distinct statements x progress k in 0..n-1 (0: the first statement failed) x origin of the partial revision {statement k+1 failed; process died before statement k+1 (no error recorded); statement 1 failed, re-run, then died before statement k+1} (revision always produced by real runs) x layout {only file, middle of 3 files} x every single edit (change/insert/delete/swap at every index, truncate to every length; thorough: every pair of edits for n<=4), re-hashed, then ExecuteN on the real Executor (a fresh one over a fresh directory, and - for failed-statement progress - the same Executor over the same directory object edited in place); plus a CLI slice on a real SQLite file: n in 2..4 x k x {no / `migrate set` on the partially applied version} x edit {none, repair, tail, prefix, truncate, insert at front} with the partial revision made by the real `migrate apply --tx-mode none`: same rule, read from exit status, output and a journal table, and no panic; non-trivial = case whose edit changes the statement list; distinct = (n,k,layout,new list)"
+	r.Rule = "files of n<=5 distinct statements x progress k in 0..n-1 (0: the first statement failed) x origin of the partial revision {statement k+1 failed; process died before statement k+1 (no error recorded); statement 1 failed, re-run, then died before statement k+1} (revision always produced by real runs) x layout {only file, middle of 3 files, a checkpoint file between two files} x every single edit (change/insert/delete/swap at every index, truncate to every length; thorough: every pair of edits for n<=4), re-hashed, then ExecuteN on the real Executor (a fresh one over a fresh directory, and - for failed-statement progress - the same Executor over the same directory object edited in place); plus a CLI slice on a real SQLite file: n in 2..4 x k x {no / `migrate set` on the partially applied version} x edit {none, repair, tail, prefix, truncate, insert at front} with the partial revision made by the real `migrate apply --tx-mode none`: same rule, read from exit status, output and a journal table, and no panic; non-trivial = case whose edit changes the statement list; distinct = (n,k,layout,new list)"
 	r.Assumptions = []string{
 		"'history untouched' compares Applied, Total, PartialHashes, Error, ErrorStmt, Hash, Type; ExecutedAt/ExecutionTime/OperatorVersion are rewritten by design on every write",
 		"statements are distinct tokens; the recording driver never fails during the second run",
